@@ -2,6 +2,7 @@ package main
 
 import (
 	"fmt"
+	goruntime "runtime"
 	"sync/atomic"
 	"time"
 
@@ -10,6 +11,7 @@ import (
 	. "verifharness/kobj"
 	"verifharness/sched"
 
+	"github.com/boz/kcache"
 	"github.com/boz/kcache/filter"
 	metav1 "k8s.io/apimachinery/pkg/apis/meta/v1"
 )
@@ -405,6 +407,8 @@ func runC07(c *Ctx) {
 // C08: all orders of {parent ready, Refilter(equal), Refilter(new), parent event}
 
 func runC08(c *Ctx) {
+	parentCacheStopped(c, "C08")
+	subscribeUnderFlood(c)
 	maxLen := 4
 	if !c.Quick() {
 		maxLen = 6
@@ -554,6 +558,7 @@ func runC08(c *Ctx) {
 // C06: filtered trees under racing Refilter / events, checked at barriers
 
 func runC06(c *Ctx) {
+	parentCacheStopped(c, "C06")
 	n := 30
 	if !c.Quick() {
 		n = 4000
@@ -935,4 +940,244 @@ func runC06(c *Ctx) {
 	}
 	c.Rep.Rule = "random trees mixing all six subscribe/clone forms to depth 3 on a real controller fed by the fake watch; parent histories that move objects in and out of the filters; Refilter (new, back to earlier, equal-rebuilt, non-comparable FN) and closes of sibling subscriptions fired WITHOUT barriers, racing with readiness and in-flight events, under 3 levels of logger-driven perturbation; in a fifth of the runs the watch also replays stretches of old history and isolated stale frames (objects re-created at older versions; the root cache is then the ground truth). At barriers: every ready node's cache = its filter chain applied to the server content (also vs the extracted nested_view), deferred nodes ready iff supplied, every subscription's events since the previous barrier replay (well-formed, strictly newer updates) from its previous cache to its current cache. Plus filtered subscriptions that are used only through Cache() (Events() never read) over 140 accepted changes: caches current, Refilter not blocked. Plus events carrying lower versions than the newest a node has seen (an upstream Refilter re-creating an old object, a relist-synthesised Delete at the old cached version): applied, not skipped. Plus parent events published while a slow Refilter is being applied (after the listing): consumed afterwards, not lost. Non-trivial = scenario with >= 4 node checks."
 	c.Rep.Stats["runs"] = runs
+}
+
+// parentCacheStopped: the window in which a filtered subscription's parent has
+// a stopped cache and an open Events() channel.  The root cache watches the
+// controller's context by itself; the controller's own goroutine is held at a
+// log call (a preemption there), so after a context cancel the cache has
+// stopped and nothing has been closed yet.
+//   (a) a Refilter to accept-all in that window: the parent's content cannot be
+//       read; nothing was deleted and the new filter admits more than the old
+//       one, so no Delete event may come out, whatever else happens;
+//   (b) the controller held at its n-th log call during start-up (n = 1..6: no
+//       log text is looked at), cancelled there, let go and held again at its
+//       next log call: whenever the filtered subscription says Ready and its
+//       cache can be read, the cache is the filter applied to the (quiet)
+//       server's content — never an empty or partial one.
+func parentCacheStopped(c *Ctx, pid string) {
+	lab := &Filt{Tag: FLabels, Map: Map{{1, 1}}}
+	fill := func(srv *fakeapi.Server) {
+		srv.Set(1, 1, labSets[1], 1)
+		srv.Set(1, 2, labSets[1], 1)
+		srv.Set(2, 1, labSets[2], 1)
+		srv.Set(2, 2, labSets[0], 1)
+	}
+	if pid == "C06" {
+		what := "Refilter(accept-all) on a filtered subscription while its parent's cache has stopped and nothing is closed yet (context cancelled, controller goroutine preempted)"
+		c.Now(what)
+		var problems []string
+		dl := sched.Bubble(c.T, func() {
+			srv := fakeapi.New()
+			fill(srv)
+			ct := newCtlWith(srv, c.Seed, 0, 1000000*time.Second, nil)
+			var release func()
+			defer func() {
+				if release != nil {
+					release()
+				}
+				ct.c.Close()
+				sched.Settle()
+			}()
+			sched.Settle()
+			fs, err := ct.c.SubscribeWithFilter(lab.Go())
+			if err != nil {
+				problems = append(problems, "SubscribeWithFilter failed")
+				return
+			}
+			sched.Settle()
+			if !isClosed(fs.Ready()) {
+				problems = append(problems, "not ready")
+				return
+			}
+			var deletes atomic.Int64
+			go func() {
+				for ev := range fs.Events() {
+					if ev.Type() == kcache.EventTypeDelete {
+						deletes.Add(1)
+					}
+				}
+			}()
+			release = ct.pert.Hold("controller")
+			ct.cancel()
+			sched.Settle()
+			fs.Refilter((&Filt{Tag: FNull}).Go()) // may be refused: the subscription may be stopping
+			sched.Settle()
+			release()
+			release = nil
+			sched.Settle()
+			if n := deletes.Load(); n > 0 {
+				problems = append(problems, fmt.Sprintf("%d Delete events on a filtered subscription although nothing was deleted and the new filter accepts everything", n))
+			}
+		})
+		c.Rep.Evaluations++
+		replay := map[string]interface{}{"scenario": what}
+		if dl != "" {
+			replay["deadlock"] = dl
+			c.Violation("", "hang (bubble deadlock): "+what, replay)
+		}
+		for _, p := range problems {
+			c.Violation("", p+" ["+what+"]", replay)
+		}
+		c.DistinctCase("parent-cache-stopped-refilter")
+	}
+	for n := 1; n <= 6; n++ {
+		what := fmt.Sprintf("controller cancelled while its goroutine is preempted at its log call %d of the start-up, then preempted again at its next one: a filtered subscription that says Ready holds its filter's view", n)
+		c.Now(what)
+		var problems []string
+		dl := sched.Bubble(c.T, func() {
+			srv := fakeapi.New()
+			fill(srv)
+			release := srv.HoldLists()
+			ct := newCtlWith(srv, c.Seed+int64(n), 0, 1000000*time.Second, nil)
+			var releases []func()
+			defer func() {
+				for _, r := range releases {
+					r()
+				}
+				ct.c.Close()
+				sched.Settle()
+			}()
+			fs, err := ct.c.SubscribeWithFilter(lab.Go())
+			if err != nil {
+				release()
+				problems = append(problems, "SubscribeWithFilter failed")
+				return
+			}
+			relN, held := ct.pert.HoldNth("controller", n)
+			releases = append(releases, relN)
+			release()
+			sched.Settle()
+			if !held() {
+				return // fewer log calls than n during start-up
+			}
+			ct.cancel()
+			sched.Settle()
+			relNext, _ := ct.pert.HoldNth("controller", 1) // the next log call after this one
+			releases = append(releases, relNext)
+			relN()
+			sched.Settle()
+			if isClosed(fs.Ready()) {
+				if got, err := cacheIDs(fs.Cache()); err == nil {
+					if want := acceptedIDs(srv.Objects(), lab.Go()); !sameInts(got, want) {
+						problems = append(problems, fmt.Sprintf("Ready() is closed and the cache reads %v, the filter applied to the parent's content is %v", got, want))
+					}
+				}
+			}
+		})
+		c.Rep.Evaluations++
+		replay := map[string]interface{}{"scenario": what, "n": n}
+		if dl != "" {
+			replay["deadlock"] = dl
+			c.Violation("", "hang (bubble deadlock): "+what, replay)
+		}
+		for _, p := range problems {
+			c.Violation("", p+" ["+what+"]", replay)
+		}
+		c.DistinctCase(fmt.Sprint("parent-cache-stopped-ready-", n))
+	}
+}
+
+// subscribeUnderFlood: filtered subscriptions / filtered clones created one
+// after another on a READY controller while one accepted object is being
+// updated as fast as the server can (real parallelism inside the bubble, no
+// barriers).  The object exists before and throughout, so it is part of every
+// node's content at its readiness: a stream may carry Updates for it, never a
+// Create, and nothing at all before the node's Ready() is closed.
+func subscribeUnderFlood(c *Ctx) {
+	m := 200
+	if !c.Quick() {
+		m = 1500
+	}
+	what := fmt.Sprintf("%d filtered subscriptions and filtered clones created one after another on a ready controller while one accepted object is updated continuously", m)
+	c.Now(what)
+	var creates, early atomic.Int64
+	var events atomic.Int64
+	var problems []string
+	lab := &Filt{Tag: FLabels, Map: Map{{1, 1}}}
+	dl := sched.Bubble(c.T, func() {
+		srv := fakeapi.New()
+		srv.Set(1, 1, labSets[1], 1)
+		srv.Set(1, 2, labSets[2], 1)
+		ct := newCtlWith(srv, c.Seed, 0, 1000000*time.Second, nil)
+		defer func() {
+			ct.c.Close()
+			sched.Settle()
+		}()
+		sched.Settle()
+		if !isClosed(ct.c.Ready()) {
+			problems = append(problems, "not ready")
+			return
+		}
+		stop := make(chan struct{})
+		produced := make(chan struct{})
+		go func() {
+			defer close(produced)
+			for i := 0; i < 400000; i++ {
+				select {
+				case <-stop:
+					return
+				default:
+				}
+				srv.Set(1, 1, labSets[1], 1+i%2)
+				goruntime.Gosched()
+			}
+		}()
+		watchStream := func(ready <-chan struct{}, evs <-chan kcache.Event) {
+			go func() {
+				for ev := range evs {
+					events.Add(1)
+					if !isClosed(ready) {
+						early.Add(1)
+					}
+					if ev.Type() == kcache.EventTypeCreate {
+						creates.Add(1)
+					}
+				}
+			}()
+		}
+		for i := 0; i < m; i++ {
+			if i%2 == 0 {
+				fs, err := ct.c.SubscribeWithFilter(lab.Go())
+				if err != nil {
+					problems = append(problems, "SubscribeWithFilter failed")
+					break
+				}
+				watchStream(fs.Ready(), fs.Events())
+			} else {
+				fc, err := ct.c.CloneWithFilter(lab.Go())
+				if err != nil {
+					problems = append(problems, "CloneWithFilter failed")
+					break
+				}
+				sub, err := fc.Subscribe()
+				if err != nil {
+					problems = append(problems, "Subscribe on a filtered clone failed")
+					break
+				}
+				watchStream(sub.Ready(), sub.Events())
+			}
+			goruntime.Gosched()
+		}
+		close(stop)
+		<-produced
+		sched.Settle()
+	})
+	c.Rep.Evaluations++
+	c.Stat("flood_events_received", int(events.Load()))
+	replay := map[string]interface{}{"scenario": what, "creates": creates.Load(), "events_before_ready": early.Load(), "events_received": events.Load()}
+	if dl != "" {
+		replay["deadlock"] = dl
+		c.Violation("", "hang (bubble deadlock): "+what, replay)
+	}
+	for _, p := range problems {
+		c.Violation("", p+" ["+what+"]", replay)
+	}
+	if n := creates.Load(); n > 0 {
+		c.Violation("", fmt.Sprintf("%d Create events for an object that existed before every one of the nodes was created (it is part of their content at readiness) [%s]", n, what), replay)
+	}
+	if n := early.Load(); n > 0 {
+		c.Violation("", fmt.Sprintf("%d events received from nodes whose Ready() was still open [%s]", n, what), replay)
+	}
+	c.DistinctCase("subscribe-under-flood")
 }
